@@ -105,8 +105,9 @@ func c07Pairs(c *Ctx) {
 		}
 		baseGroup := chGroup(c07Ranges, base.addr())
 		// letters up to z in the name (spelled in another case by the "case" variant); every third
-		// upstream reply is authoritative / validated (AA, AD): the cached copy keeps those flags
-		name := fmt.Sprintf("ok-n3-ttl300%s-kzy%dx%d.pipe.test.", []string{"", "-aa", "-aa-ad"}[i%3], i, r.Intn(1<<20))
+		// upstream reply is authoritative / validated (AA, AD): the cached copy keeps those flags; every
+		// third reply comes without a question section (the cached copy is relayed like the first)
+		name := fmt.Sprintf("ok-n3-ttl300%s-kzy%dx%d.pipe.test.", []string{"", "-aa", "-aa-ad", "-noq", "", "-aa-noq"}[i%6], i, r.Intn(1<<20))
 		qt, qc := gen.Pick(r, []uint16{dns.TypeA, dns.TypeAAAA, dns.TypeTXT, dns.TypeMX}), uint16(dns.ClassINET)
 		if i%5 == 2 {
 			// a reply that fits the 64 KiB of a stream transport only thanks to name compression
